@@ -67,10 +67,10 @@ theorem vn_compl {w a : Nat} (ha : a ≤ DEC_ONE) (hw : w ≤ U64_MAX) :
 /-! ## 2. Premise, closed forms of the decision functions -/
 
 /-- all votes cast -/
-def cast (v : Votes) : Nat := v.yes + v.no + v.abstain + v.veto
+@[reducible] def cast (v : Votes) : Nat := v.yes + v.no + v.abstain + v.veto
 
 /-- tally after further votes `c` -/
-def plus (v c : Votes) : Votes := ⟨v.yes + c.yes, v.no + c.no, v.abstain + c.abstain, v.veto + c.veto⟩
+@[reducible] def plus (v c : Votes) : Votes := ⟨v.yes + c.yes, v.no + c.no, v.abstain + c.abstain, v.veto + c.veto⟩
 
 /-- The premise of C04: the tally does not exceed the total weight (a `u64`) and the threshold
 passed `Threshold::validate` for this total. -/
@@ -354,5 +354,169 @@ theorem expired_decision_within_one {p : Tally} (h : Premise p) {blk : Block}
   have := libPasses_within_one (v := p.votes) h.valid h.tally_le h.total_u64
   rw [expired_decision_eq_formula h he]
   exact ⟨fun hx => congrArg _ (this.1 hx), fun hx => this.2 (Except.ok.inj hx)⟩
+
+/-! ## 5. Early decisions are sound; never both -/
+
+/-- What `is_rejected` computes, as a pure formula. -/
+def libRejectsAt (thr : Threshold) (total : Nat) (v : Votes) (expired : Bool) : Bool :=
+  match thr with
+  | .absoluteCount k => decide (total - k < v.no)
+  | .absolutePercentage a => decide (votesNeeded (total - v.abstain) (DEC_ONE - a) < v.no)
+  | .thresholdQuorum t _ =>
+    decide (votesNeeded ((if expired then cast v else total) - v.abstain) (DEC_ONE - t) < v.no)
+
+/-- under the premise `is_rejected` is the library formula -/
+theorem isRejected_eq {p : Tally} (h : Premise p) (blk : Block) :
+    isRejected p blk = .ok (libRejectsAt p.threshold p.totalWeight p.votes (p.expires.isExpired blk)) := by
+  have hv := h.valid
+  cases ht : p.threshold with
+  | absoluteCount k => rw [ht] at hv; rw [isRejected_count blk ht (valid_count hv).2]; rfl
+  | absolutePercentage a => rw [ht] at hv; rw [isRejected_pct blk ht h.abstain_le (valid_pct hv).2]; rfl
+  | thresholdQuorum t q =>
+    rw [ht] at hv; rw [isRejected_quorum blk ht h.tally_le h.total_u64 (valid_quorum hv).2.1]; rfl
+
+theorem cast_plus (v c : Votes) : cast (plus v c) = cast v + cast c := by
+  simp only [cast]; omega
+
+/-- the pure core of `passed_sound` -/
+theorem libPassesAt_open_completion {thr : Threshold} {total : Nat} {v : Votes}
+    (hv : thr.validate total = .ok ()) (hu : total ≤ U64_MAX)
+    (hp : libPassesAt thr total v false = true) (c : Votes) (hc : cast (plus v c) ≤ total) (e : Bool) :
+    libPassesAt thr total (plus v c) e = true := by
+  obtain ⟨y, n, ab, ve⟩ := v
+  obtain ⟨cy, cn, cab, cve⟩ := c
+  simp only [cast] at hc
+  cases thr with
+  | absoluteCount k =>
+    simp only [libPassesAt] at hp ⊢
+    simp only [Bool.and_eq_true, decide_eq_true_eq] at hp ⊢; omega
+  | absolutePercentage a =>
+    have hm := vn_mono (w := total - (ab + cab)) (w' := total - ab) (valid_pct hv).2 (by omega) (by omega)
+    simp only [libPassesAt] at hp ⊢
+    simp only [Bool.and_eq_true, decide_eq_true_eq] at hp ⊢; omega
+  | thresholdQuorum t q =>
+    have hm : votesNeeded ((if e = true then y + cy + (n + cn) + (ab + cab) + (ve + cve) else total) - (ab + cab)) t
+        ≤ votesNeeded (total - ab) t := by
+      apply vn_mono (valid_quorum hv).2.1 (by omega)
+      cases e <;> simp only [Bool.false_eq_true, if_true, if_false] <;> omega
+    simp only [libPassesAt, cast] at hp ⊢
+    simp only [Bool.and_eq_true, decide_eq_true_eq, Bool.false_eq_true, if_false] at hp ⊢
+    omega
+
+/-- C04 clause 2a: before expiry the library reports Passed only if EVERY completion of the
+outstanding votes (any further yes/no/abstain/veto weights `c` keeping the tally within the total)
+still passes as a final tally — stated against the library's own after-expiry decision. -/
+theorem passed_sound {p : Tally} (h : Premise p) {blk : Block} (hne : p.expires.isExpired blk = false)
+    (hp : isPassed p blk = .ok true) (c : Votes) (hc : cast (plus p.votes c) ≤ p.totalWeight) :
+    libPasses p.threshold p.totalWeight (plus p.votes c) = true := by
+  rw [isPassed_eq h blk, hne] at hp
+  exact libPassesAt_open_completion h.valid h.total_u64 (Except.ok.inj hp) c hc true
+
+/-- … the same on the decision function: the completed proposal, evaluated at any block at which it
+has expired, is passed. -/
+theorem passed_sound' {p : Tally} (h : Premise p) {blk : Block} (hne : p.expires.isExpired blk = false)
+    (hp : isPassed p blk = .ok true) (c : Votes) (hc : cast (plus p.votes c) ≤ p.totalWeight)
+    {blk' : Block} (he : p.expires.isExpired blk' = true) :
+    isPassed { p with votes := plus p.votes c } blk' = .ok true := by
+  have h' : Premise { p with votes := plus p.votes c } := ⟨hc, h.total_u64, h.valid⟩
+  rw [expired_decision_eq_formula h' he]
+  exact congrArg _ (passed_sound h hne hp c hc)
+
+/-- against exact arithmetic the early Passed is sound within one vote (exact for 9 decimals) -/
+theorem passed_sound_exact {p : Tally} (h : Premise p) {blk : Block} (hne : p.expires.isExpired blk = false)
+    (hp : isPassed p blk = .ok true) (c : Votes) (hc : cast (plus p.votes c) ≤ p.totalWeight) :
+    laxPasses p.threshold p.totalWeight (plus p.votes c) = true ∧
+    (nineDecimals p.threshold → exactPasses p.threshold p.totalWeight (plus p.votes c) = true) := by
+  have hl := passed_sound h hne hp c hc
+  refine ⟨(libPasses_within_one h.valid hc h.total_u64).2 hl, fun h9 => ?_⟩
+  rw [← libPasses_eq_exact9 h.valid hc h.total_u64 h9]; exact hl
+
+/-- the pure core of `rejected_sound` -/
+theorem libRejectsAt_open_completion {thr : Threshold} {total : Nat} {v : Votes}
+    (hv : thr.validate total = .ok ()) (hu : total ≤ U64_MAX)
+    (hr : libRejectsAt thr total v false = true) (c : Votes) (hc : cast (plus v c) ≤ total) :
+    libPasses thr total (plus v c) = false := by
+  obtain ⟨y, n, ab, ve⟩ := v
+  obtain ⟨cy, cn, cab, cve⟩ := c
+  simp only [cast] at hc
+  apply Bool.eq_false_iff.mpr
+  intro hp
+  cases thr with
+  | absoluteCount k =>
+    have := valid_count hv
+    simp only [libRejectsAt, libPasses, libPassesAt] at hr hp
+    simp only [Bool.and_eq_true, decide_eq_true_eq] at hr hp; omega
+  | absolutePercentage a =>
+    have ha := (valid_pct hv).2
+    have hm := vn_mono (w := total - (ab + cab)) (w' := total - ab) (a := DEC_ONE - a)
+      (Nat.sub_le _ _) (by omega) (by omega)
+    have hk := vn_compl (w := total - (ab + cab)) ha (by omega)
+    simp only [libRejectsAt, libPasses, libPassesAt] at hr hp
+    simp only [Bool.and_eq_true, decide_eq_true_eq] at hr hp; omega
+  | thresholdQuorum t q =>
+    have ha := (valid_quorum hv).2.1
+    have hm := vn_mono (w := y + cy + (n + cn) + (ab + cab) + (ve + cve) - (ab + cab)) (w' := total - ab)
+      (a := DEC_ONE - t) (Nat.sub_le _ _) (by omega) (by omega)
+    have hk := vn_compl (w := y + cy + (n + cn) + (ab + cab) + (ve + cve) - (ab + cab)) ha (by omega)
+    simp only [libRejectsAt, libPasses, libPassesAt, cast] at hr hp
+    simp only [Bool.and_eq_true, decide_eq_true_eq, Bool.false_eq_true, if_false, if_true] at hr hp
+    omega
+
+/-- C04 clause 2b: before expiry the library reports Rejected only if NO completion of the
+outstanding votes passes as a final tally. -/
+theorem rejected_sound {p : Tally} (h : Premise p) {blk : Block} (hne : p.expires.isExpired blk = false)
+    (hr : isRejected p blk = .ok true) (c : Votes) (hc : cast (plus p.votes c) ≤ p.totalWeight) :
+    libPasses p.threshold p.totalWeight (plus p.votes c) = false := by
+  rw [isRejected_eq h blk, hne] at hr
+  exact libRejectsAt_open_completion h.valid h.total_u64 (Except.ok.inj hr) c hc
+
+/-- … on the decision function -/
+theorem rejected_sound' {p : Tally} (h : Premise p) {blk : Block} (hne : p.expires.isExpired blk = false)
+    (hr : isRejected p blk = .ok true) (c : Votes) (hc : cast (plus p.votes c) ≤ p.totalWeight)
+    {blk' : Block} (he : p.expires.isExpired blk' = true) :
+    isPassed { p with votes := plus p.votes c } blk' = .ok false := by
+  have h' : Premise { p with votes := plus p.votes c } := ⟨hc, h.total_u64, h.valid⟩
+  rw [expired_decision_eq_formula h' he]
+  exact congrArg _ (rejected_sound h hne hr c hc)
+
+/-- an early Rejected also excludes every completion in EXACT arithmetic (the library is never
+stricter than exact, so "no completion passes the library" implies "none passes exactly") -/
+theorem rejected_sound_exact {p : Tally} (h : Premise p) {blk : Block} (hne : p.expires.isExpired blk = false)
+    (hr : isRejected p blk = .ok true) (c : Votes) (hc : cast (plus p.votes c) ≤ p.totalWeight) :
+    exactPasses p.threshold p.totalWeight (plus p.votes c) = false := by
+  have hl := rejected_sound h hne hr c hc
+  apply Bool.eq_false_iff.mpr
+  intro hx
+  rw [(libPasses_within_one h.valid hc h.total_u64).1 hx] at hl
+  cases hl
+
+/-- C04 clause 3: no tally is reported both passed and rejected (expired or not). -/
+theorem not_both {p : Tally} (h : Premise p) (blk : Block) :
+    ¬ (isPassed p blk = .ok true ∧ isRejected p blk = .ok true) := by
+  rintro ⟨hp, hr⟩
+  rw [isPassed_eq h blk] at hp
+  rw [isRejected_eq h blk] at hr
+  have hp := Except.ok.inj hp
+  have hr := Except.ok.inj hr
+  have hv := h.valid
+  have hc := h.tally_le
+  have hu := h.total_u64
+  unfold cast at hc
+  generalize p.threshold = thr at *
+  generalize p.totalWeight = total at *
+  generalize p.expires.isExpired blk = e at *
+  generalize p.votes = v at *
+  cases thr with
+  | absoluteCount k =>
+    have := valid_count hv
+    simp only [libRejectsAt, libPassesAt, Bool.and_eq_true, decide_eq_true_eq] at hr hp; omega
+  | absolutePercentage a =>
+    have hk := vn_compl (w := total - v.abstain) (valid_pct hv).2 (by omega)
+    simp only [libRejectsAt, libPassesAt, Bool.and_eq_true, decide_eq_true_eq] at hr hp; omega
+  | thresholdQuorum t q =>
+    have hk := vn_compl (w := (if e then cast v else total) - v.abstain) (valid_quorum hv).2.1
+      (by cases e <;> simp only [Bool.false_eq_true, if_true, if_false, cast] <;> omega)
+    simp only [libRejectsAt, libPassesAt, Bool.and_eq_true, decide_eq_true_eq] at hr hp
+    cases e <;> simp only [Bool.false_eq_true, if_true, if_false, cast] at hr hp hk <;> omega
 
 end CwPlus.Props.C04
